@@ -225,8 +225,16 @@ def case_routes(spec):
     filt = {tuple(t.pos): t for t in toast.generate_tiles_filtered(maxd, lambda t: tuple(t.pos) in acc, bottom_only=False, coordsys=cs)}
     if set(filt) != acc:
         probs.append("filtered enumeration yielded %d tiles, the filter accepts %d reachable ones" % (len(filt), len(acc)))
+    from toasty.toast import ToastCoordinateSystem as CS
+
+    ocs = CS.ASTRONOMICAL if pl else CS.PLANETARY
     for p in pos_list:
         rc, rinc = rt.tile_corners(p, pl)
+        # the same position in the other coordinate system first, in this same process (anything remembered per
+        # position must not leak from one system into the other)
+        to = toast.create_single_tile(Pos(*p), coordsys=ocs)
+        orc, oinc = rt.tile_corners(p, not pl)
+        _cmp_tile(to, orc, oinc, probs, "create_single_tile[other coordinate system]")
         t1 = toast.create_single_tile(Pos(*p), coordsys=cs)
         if tuple(t1.pos) != p:
             probs.append("create_single_tile(%s).pos = %s" % (p, tuple(t1.pos)))
